@@ -224,6 +224,15 @@ PROPS["C13"] = dict(
     level_note='Trusted: Coq kernel + vm_compute; the hand-written small-step model of event_bus.go / persistEvent (flat registry; sync.Mutex, RWMutex, WaitGroup, atomic CAS, goroutine creation and recover are modelled as atomic micro-steps); the controller harness (parks goroutines at user-code callbacks, reads goroutine states from runtime.Stack) and the replay of its log on the model (Bus/BusRun.v); the oracle Corr/BusOracle.v; interleavings strictly inside bus code are not forced by the controller.',
     rule='cases = seeded random programs (threads, handler/filter/hook bodies that call back into the bus, options) run on the real bus under the controller with a seeded random schedule; every run is replayed on the Coq model along the controller log and judged by the oracle; directed witness programs run first; C13: persistent buses, each published value mapped to ok/reject/timeout/unencodable with probability 3/8 of a fault; non-trivial = every case; distinct = distinct program+schedule',
 )
+PROPS["C15"] = dict(
+    title='One type name per event type, everywhere',
+    theorems="Properties/C15.v",
+    proof_files=["Names/TypeNames.v", "Names/NamesProofs.v", "Properties/C15.v"],
+    suites=[dict(name="names", mod="core", family="names", corr="Corr.CorrNames", check="check15", shard=50)],
+    level_text='Proved in Coq by exhaustive case analysis over the finite domain the property quantifies over (6 shapes of event type x 6 name-deriving paths, completeness of the enumeration proved): all paths derive the same name, hence typed replay subscriptions and typed upcasters match what was persisted. Tied to the code by running, for each shape (and the state package messages by value and by pointer), publish+persist, EventType, Replay with an EventType comparison, SubscribeWithReplay[T] on a fresh bus over the same store and RegisterUpcast[T,W] + ReplayWithUpcast against the real code and comparing with the model.',
+    level_note='Trusted: Coq kernel + vm_compute; the hand-written model Names/TypeNames.v of how EventType / persistEvent / SubscribeWithReplay / RegisterUpcast derive a name (Go method sets for value and pointer receivers); the Go harness names.go; reflect and encoding/json are not modelled. The shapes are the ones the property lists; generic instantiations, named non-struct types and interface-typed T are not separate shapes in the model.',
+    rule='cases = the 10 shapes (6 of the property + state.ChangeMessage / ControlMessage by value and by pointer), each run with seeded payload values, repeated per seed; non-trivial = every case; distinct = distinct shape+payload',
+)
 PROPS["C20"] = dict(
     title='Observability callbacks are balanced, nested and truthful',
     theorems="Properties/C20.v",
